@@ -66,7 +66,8 @@ REQUIRED_COUNTERS = ["honest_exchanges", "honest_completed", "tampered_nonce", "
                      "tampered_signature", "impostor_exchanges", "client_aborted_after_server_first",
                      "client_aborted_after_server_final", "exchanges_through_step_on_loop",
                      "rotation_exchanges_against_old_password_server", "rotation_exchanges_against_new_password_server",
-                     "login_honest_completed", "login_rogue_server_refused", "login_handshake_v0", "login_handshake_v1"]
+                     "login_honest_completed", "login_rogue_server_refused", "login_handshake_v0", "login_handshake_v1",
+                     "replayed_server_messages_refused"]
 
 USERNAMES = [
     "user", "alice@example.com", "a,b", "a=b", "=,=,", ",", "=", ",=2C", "=3D", "u=2Cser=3D", "==2C,,=3D=",
@@ -441,6 +442,43 @@ class Checker:
                     self.count("login_rogue_server_refused")
                     self.count(f"login_refused_with_{type(out['exc']).__name__}")
 
+    def replays(self, p):
+        """A peer that does not know the password but recorded an earlier genuine login of the same user replays the
+        server's two messages verbatim.  The client's nonce must be fresh for every login (RFC 5802 5.1), so the replayed
+        server-first message cannot extend it and the login must abort."""
+        honest = self.make_server(p, mode="honest")
+        done, _stage, _exc, tr = self.exchange(p, honest)
+        if not done:
+            return          # reported by honest()
+        rec = [m for who, m in tr if who == "S"]
+        cfirst = [m for who, m in tr if who == "C"][0]
+
+        class Replayer:
+            problems, accepted, tampered_nonce_extends, mode = [], False, False, "replay"
+
+            def on_client_first(self, raw):
+                self.second_first = raw
+                return rec[0]
+
+            def on_client_final(self, raw):
+                return rec[1]
+        rp = Replayer()
+        done2, stage, exc, tr2 = self.exchange(p, rp)
+        self.count("replay_exchanges")
+        self.note(p, ["replay"])
+        nonce = lambda m: dict(x.split(b"=", 1) for x in m.split(b",")[2:] if b"=" in x).get(b"r")     # noqa: E731
+        if nonce(cfirst) == nonce(getattr(rp, "second_first", b"")):
+            self.violate("scram_client_nonce_reused_across_logins",
+                         f"two logins of one process sent the same client nonce {nonce(cfirst)!r}",
+                         self.witness(p, ["replay"], tr + tr2))
+        if done2:
+            self.violate("scram_completes_with_replayed_server_messages",
+                         "the client completed a login against a peer that only replayed the server messages recorded from an "
+                         "earlier login (it does not know the password)", self.witness(p, ["replay"], tr + tr2))
+        else:
+            self.count("replayed_server_messages_refused")
+            self.count(f"client_aborted_after_{stage}")
+
     def impostors(self, p):
         rng = self.rng
         hlen = 32 if p["mechanism"].endswith("256") else 64
@@ -511,6 +549,7 @@ def run_shard(params):
             ck.tampers(p)
             ck.impostors(p)
             ck.rotation(p)
+            ck.replays(p)
             if i < LOGIN_SETS[params.get("tier", "quick")]:
                 ck.logins(p)
             ck.count("parameter_sets")
@@ -521,7 +560,7 @@ def run_shard(params):
         lib.loop.close()
     res["evaluations"] = sum(v for k, v in ck.counters.items()
                              if k in ("honest_exchanges", "impostor_exchanges", "rotation_exchanges_against_old_password_server",
-                                      "login_exchanges")
+                                      "login_exchanges", "replay_exchanges")
                              or k.startswith("tampered_"))
     res["violations"] = list(ck.violations.values())
     res["nontrivial"] = ck.nontrivial
